@@ -48,6 +48,17 @@ pub fn gen_mesh_death(r: &mut Rng, frames: i32) -> Scn {
             o.2.stragglers.push(g.clone());
         }
     }
+    // a survivor whose game loop hangs (it keeps polling its session) from shortly before the death until after the
+    // others have timed the dead peer out: its inputs then arrive late and make the others roll back to frames at or before
+    // the dropped player's last frame AFTER they have marked it as dropped
+    if r.chance(0.25) {
+        let k = s.kill.clone().unwrap();
+        let hang = (k.node + 1 + r.below(n as u64 - 1) as usize) % n;
+        let mut cfgs: Vec<NodeCfg> = (0..n).map(|_| NodeCfg::default()).collect();
+        cfgs[hang].poll_only.push((k.at_ms.saturating_sub(r.range(30, 300)), k.at_ms + s.timeout_ms + r.range(100, 600)));
+        cfgs[hang].polls_per_tick = r.pick(&[1u64, 2]);
+        s.nodes = cfgs;
+    }
     s.start = Start::AllRunning;
     s.settle_ms = 1500;
     s
@@ -91,11 +102,40 @@ pub fn run_case(c: &WCase) -> Outcome {
                 return;
             }
         }
+        // ---- measured history class (from what the simulated network handed over, not from the sessions' bookkeeping)
+        let stale_gossip: Option<String> = w.scn.kill.as_ref().filter(|_| w.killed_at.is_some()).and_then(|k| {
+            let net = w.net.borrow();
+            let dead_addr = peer_addr(k.node);
+            let h = w.scn.peers[k.node][0];
+            let alive: Vec<&Node> = w.nodes.iter().filter(|n| n.alive && !n.is_spec).collect();
+            let mut found = vec![];
+            for x in &alive {
+                let own = net.max_input_frame_delivered.get(&(dead_addr, x.addr)).copied().unwrap_or(-1);
+                for y in &alive {
+                    if y.addr == x.addr {
+                        continue;
+                    }
+                    if let Some(g) = net.gossip_delivered.get(&(y.addr, x.addr)).and_then(|g| g.get(h)) {
+                        if g.1 < own {
+                            found.push(format!("node {} holds frame {own} of the dropped player, the newest view of node {} delivered to it is ({}, {})", x.addr, y.addr, g.0, g.1));
+                        }
+                    }
+                }
+            }
+            if found.is_empty() { None } else { Some(found.join("; ")) }
+        });
         if !w.viols.is_empty() {
             // tag the history class: did the survivors hold different last frames of the dropped player?
             if let Some(k) = &w.scn.kill {
                 let dead = &w.scn.peers[k.node];
-                let ls: Vec<Vec<i32>> = w.nodes.iter().filter(|n| n.alive && !n.is_spec).map(|n| dead.iter().map(|h| n.fin.cs[*h].1).collect()).collect();
+                // measured from the payloads the simulated network handed over, not from the sessions' own bookkeeping (a
+                // survivor that adopted a lower cut-off in a bare poll already shows the adopted value)
+                let dead_addr = peer_addr(k.node);
+                let ls: Vec<i32> = {
+                    let net = w.net.borrow();
+                    w.nodes.iter().filter(|n| n.alive && !n.is_spec).map(|n| net.max_input_frame_delivered.get(&(dead_addr, n.addr)).copied().unwrap_or(-1)).collect()
+                };
+                let _ = dead;
                 if w.killed_at.is_some() && ls.iter().any(|x| *x != ls[0]) {
                     if let Verdict::Violated(vs) = &mut out.verdict {
                         for v in vs.iter_mut() {
@@ -104,6 +144,16 @@ pub fn run_case(c: &WCase) -> Outcome {
                     }
                     out.nontrivial = true;
                     out.count("scenarios_with_split_cutoff", 1);
+                } else if let Some(sg) = &stale_gossip {
+                    // same last frame everywhere, but a survivor that stalled early (waiting for a hanging peer) never got to
+                    // gossip its final view: the receiver takes the minimum over ALL views, including that stale one
+                    if let Verdict::Violated(vs) = &mut out.verdict {
+                        for v in vs.iter_mut() {
+                            v.detail = format!("{} [stale gossip: all survivors hold the same last frame of the dropped player, but an older view of it was the newest one delivered: {sg}]", v.detail);
+                        }
+                    }
+                    out.nontrivial = true;
+                    out.count("scenarios_with_stale_gossip", 1);
                 }
             }
             return;
